@@ -518,3 +518,37 @@ def segments(trace):
         else:
             cur[1].append(ev)
     return prelude, segs
+
+
+def summarize(w, trace):
+    """Facts about one run that several checkers need."""
+    prelude, segs = segments(trace)
+    info = dict(nops=len(segs), segs=segs, prelude=prelude, final=None, handler=None, delay=None,
+                poll_true=any(e[0] == "poll" and e[2] for e in trace), sleeps=[e for e in trace if e[0] == "sleep"],
+                op_abort=False)
+    if segs:
+        op, evs = segs[-1]
+        i = op[1]
+        kind, obj, klass = w.objs[i]
+        info["final"] = dict(i=i, kind=kind, obj=obj, klass=klass)
+        hs = [e for e in evs if e[0] == "handler"]
+        if hs:
+            info["handler"] = hs[-1][3]
+            info["delay"] = hs[-1][2]
+        info["op_abort"] = kind == "abort_exc"
+    # did a poll answer True before the final attempt's operation raised/returned?  (then the final
+    # attempt never happened; segments() only creates a segment for invoked operations, so a True poll
+    # always comes after the last op event)
+    info["poll_true_before_final"] = False
+    info["aborted"] = bool(info["poll_true"] or info["op_abort"] or info["handler"] is SleepDecision.ABORT)
+    info["deferred"] = (not info["aborted"]) and info["handler"] is SleepDecision.DEFER
+    return info
+
+
+def innermost_frame_name(exc):
+    tb = exc.__traceback__
+    name = None
+    while tb is not None:
+        name = tb.tb_frame.f_code.co_name
+        tb = tb.tb_next
+    return name
